@@ -261,10 +261,33 @@ func genBinOps(atoms []logql.Expr) []logql.Expr {
 			}
 		}
 	}
-	for _, m := range mix {
+	for mi, m := range mix {
 		lo, hi := m[0], m[1]
 		out = append(out, &logql.BinOpExpr{Left: x, Op: lo, Right: &logql.BinOpExpr{Left: y, Op: hi, Right: z}}) // x lo y hi z
 		out = append(out, &logql.BinOpExpr{Left: &logql.BinOpExpr{Left: x, Op: hi, Right: y}, Op: lo, Right: z}) // x hi y lo z
+		// a modifier belongs to the one operation it is written on: on the tighter one only, on the looser one only
+		md := mods[1+mi%(len(mods)-1)]
+		if md.ReturnBool && level[hi] != 3 { // bool goes with comparisons only
+			md = mods[2]
+		}
+		out = append(out, &logql.BinOpExpr{Left: &logql.BinOpExpr{Left: x, Op: hi, Modifier: md, Right: y}, Op: lo, Right: z}) // x hi mod y lo z
+		ml := mods[2+mi%3]
+		if lo.IsLogic() && ml.Group != "" {
+			ml = mods[2] // no group_left / group_right on set operators
+		}
+		out = append(out, &logql.BinOpExpr{Left: &logql.BinOpExpr{Left: x, Op: hi, Right: y}, Op: lo, Modifier: ml, Right: z}) // x hi y lo mod z
+		out = append(out, &logql.BinOpExpr{Left: x, Op: lo, Modifier: ml, Right: &logql.BinOpExpr{Left: y, Op: hi, Right: z}}) // x lo mod y hi z
+	}
+	// an operation with a number as an operand of a set operator: a vector, wherever the number stands
+	for _, lo := range []logql.BinOp{logql.OpOr, logql.OpAnd, logql.OpUnless} {
+		for _, hi := range []logql.BinOp{logql.OpAdd, logql.OpSub, logql.OpMul, logql.OpDiv, logql.OpMod, logql.OpPow, logql.OpGt, logql.OpEq} {
+			lit := lits[int(hi)%2]
+			out = append(out,
+				&logql.BinOpExpr{Left: x, Op: lo, Right: &logql.BinOpExpr{Left: lit, Op: hi, Right: z}}, // x or 2 / z
+				&logql.BinOpExpr{Left: x, Op: lo, Right: &logql.BinOpExpr{Left: z, Op: hi, Right: lit}}, // x or z / 2
+				&logql.BinOpExpr{Left: &logql.BinOpExpr{Left: lit, Op: hi, Right: x}, Op: lo, Right: z}, // 2 / x or z
+			)
+		}
 	}
 	return out
 }
@@ -460,6 +483,9 @@ var c05Static = []string{
 	`count_over_time({a="b"} | unwrap v [5m])`,
 	`bytes_over_time({a="b"} | unwrap bytes(v) [5m])`,
 	`bytes_rate({a="b"} | unwrap v [5m])`,
+	`rate({a="b"}[5m]) or 1 ^ 2`,
+	`rate({a="b"}[5m]) unless 1 > bool 0`,
+	`rate({a="b"}[5m]) and 2 * 3`,
 	`1 and rate({a="b"}[5m])`,
 	`rate({a="b"}[5m]) or 2`,
 	`rate({a="b"}[5m]) unless 0.5`,
